@@ -168,7 +168,8 @@ func c13Prop(k *verifkit.Kit) func(c c13Case) error {
 		if len(c.Addrs) > 1 {
 			cur := c.Addrs
 			pl := c13Plugin(c, &cur)
-			for step, list := range [][]system.IP{c.Addrs, c.Addrs[1:], c.Addrs[:len(c.Addrs)/2], c.Addrs} {
+			for step, list := range [][]system.IP{c.Addrs, c.Addrs[1:], c.Addrs[:len(c.Addrs)/2], c.Addrs,
+				vkReflag(c.Addrs, 0), vkReflag(c.Addrs, 3), vkReflag(c.Addrs, 1), c.Addrs} { // (... and flags change while the addresses stay)
 				cur = list
 				g, err := c13ApplyOn(pl)
 				if err != nil {
